@@ -4,4 +4,8 @@ cJobs == {"j1", "j2"}
 cLocsOf == [j \in cJobs |-> IF j = "j2" THEN {"l1", "l2"} ELSE {"l1"}]
 cDirs == {"a", "b", "c", "d", "e", "f", "g", "p"}
 cPinned == [j \in cJobs |-> IF j = "j2" THEN <<"", "p", "">> ELSE <<"", "", "">>]
+\* only the directory pinned by the binding is lost (losing the fresh ones only multiplies states: they are never
+\* handed out again)
+MCNext == \/ \E j \in Jobs, d \in Dirs \X Dirs \X Dirs : Schedule(j, d)
+          \/ \E l \in AllLocs : Lose(l, "p")
 ====
